@@ -906,6 +906,17 @@ def check_image_case(acc: core.Acc, case: dict) -> None:
                     acc.fail('choreo_image_rewrite_diff', case, f'{label}\nsaving the same entries as a mapping whose keys are not their checksums gives a different file\n'
                              f'first : {w1.hex()[:400]}\nmapping: {w4.hex()[:400]}', path='stale_keys', unsorted_input=unsorted_input, **sig)
                     status = 'rewrite_diff'
+            # an entry of the parsed image edited in place through Entry.data: the edit is what gets saved
+            back4 = ch.parse_scenes_image(io.BytesIO(w1))
+            crc0 = min(back4)
+            sc0 = back4[crc0].data
+            flipped = not sc0.ignore_phonemes
+            sc0.ignore_phonemes = flipped
+            again = ch.parse_scenes_image(io.BytesIO(save(back4)))
+            if sorted(again) != sorted(back4) or again[crc0].data.ignore_phonemes is not flipped:
+                acc.fail('choreo_image_edit_lost', case, f'{label}\nparse, set entry.data.ignore_phonemes = {flipped} on entry {crc0:#x}, save, parse: '
+                         f'the flag reads {again[crc0].data.ignore_phonemes if crc0 in again else "<entry missing>"}', **sig)
+                status = 'edit_lost'
             back2 = ch.parse_scenes_image(io.BytesIO(w1))
             for entry in back2.values():
                 _ = entry.data
